@@ -199,7 +199,7 @@ def cases(tier, seed):
         chunks = A.rand_chunks(rng, shape)
         while np.prod([len(c) for c in chunks] or [1]) > 100:
             chunks = tuple(A.rand_comp(rng, s, rng.choice(("one", "two", "regular"))) for s in shape)
-        chunks = IX.with_zero_chunks(rng, chunks)
+        chunks = IX.with_zero_chunks(rng, chunks, 0.07)
         enc, bare = IX.rand_index(rng, shape, "set", chunks)
         yield {"shape": list(shape), "chunks": [list(c) for c in chunks], "dtype": rng.choice(DTYPES), "index": enc, "bare": bare,
                "vmode": rng.choice(VMODES), "vkind": rng.choice(VKINDS), "vseed": rng.randrange(2 ** 31), "threads": rng.random() < 0.1}
